@@ -49,16 +49,24 @@ ShowsNewTable(P) ==
 
 ObserveOn(ch, C) == [ c \in DOMAIN ch |-> [ch[c] EXCEPT !.closed = (c \in C)] ]
 
+\* the transaction whose new root this very step stored (the actor went from commit.rootbuilt to commit.stored):
+\* a commit that changes nothing a probe can see (no write, a tracker registered at most) is published here
+StoredBy(e) ==
+    IF e.call = "commit" /\ e.from = "commit.rootbuilt"
+    THEN { r.tx : r \in { q \in Range(e.life) : q.actor = e.actor /\ q.call = "commit" } } \cap OpenTx
+    ELSE {}
+
 StepEv(e) ==
     LET P == e.probe
         C == Range(e.closed) IN
     /\ C \subseteq DOMAIN chan
-    /\ IF ProbeEq(P, root) \/ ~e.probeok
+    /\ IF (ProbeEq(P, root) \/ ~e.probeok) /\ ~\E x \in StoredBy(e) : ProbeEq(P, After(x))
        THEN /\ chan' = ObserveOn(chan, C)
             /\ res' = [op |-> "step", what |-> "same"]
             /\ UNCHANGED << root, wtx, snap, iter >>
        ELSE IF Pubs(P) # {}
-       THEN LET x == CHOOSE y \in Pubs(P) : TRUE IN
+       THEN LET x == IF \E y \in StoredBy(e) : ProbeEq(P, After(y)) THEN CHOOSE y \in StoredBy(e) : ProbeEq(P, After(y))
+                     ELSE CHOOSE y \in Pubs(P) : TRUE IN
             /\ root' = After(x)
             /\ chan' = ObserveOn(AfterPublish(x, wtx[x].work), C)
             /\ iter' = [i \in DOMAIN iter |-> IF iter[i].tx = x /\ iter[i].st = "pending"
